@@ -61,6 +61,7 @@ func localNamesOf(fn *ssa.Function) []localName {
 type nameTable struct {
 	Locals map[string][]localName `json:"locals"`
 	Params map[string][]string    `json:"params"` // parameter names in order, receiver first
+	Funcs  []string               `json:"funcs"`  // every function with a body
 	Loops  map[string][]string    `json:"loops"`  // loop signatures in source order (loopsigs.go), functions with >= 2 loops
 }
 
@@ -70,6 +71,7 @@ func cmdNames(w *World) int {
 		if len(fn.Blocks) == 0 {
 			continue
 		}
+		table.Funcs = append(table.Funcs, name)
 		if ns := localNamesOf(fn); len(ns) > 0 {
 			table.Locals[name] = ns
 		}
@@ -84,6 +86,7 @@ func cmdNames(w *World) int {
 			table.Loops[name] = sg
 		}
 	}
+	sort.Strings(table.Funcs)
 	b, _ := json.Marshal(table)
 	path := filepath.Join(verifDir, "spec", "localnames.json")
 	if err := os.WriteFile(path, b, 0o644); err != nil {
@@ -95,6 +98,7 @@ func cmdNames(w *World) int {
 var refLocalNames map[string][]localName
 var refParamNames map[string][]string
 var refLoopSigs map[string][]string
+var refFuncs map[string]bool
 var refLocalNamesLoaded bool
 
 // contractParamNames: the names the contracts use for the parameters of fn (receiver first): those
@@ -140,6 +144,12 @@ func loadRefLocalNames() {
 	var t nameTable
 	if json.Unmarshal(b, &t) == nil {
 		refLocalNames, refParamNames, refLoopSigs = t.Locals, t.Params, t.Loops
+		if len(t.Funcs) > 0 {
+			refFuncs = map[string]bool{}
+			for _, f := range t.Funcs {
+				refFuncs[f] = true
+			}
+		}
 	}
 }
 
